@@ -38,7 +38,8 @@ def bound(tier):
     q = tier == "quick"
     return dict(periods=dict(metric=[1, 4], observable=[1, 3], logger=[1, 3], saver=[1, 3]), starting_epoch=[1, 3], epochs=[0, 5 if q else 6],
                 stop="none / at every batch end / at every epoch end of the first fit", metadata=MD, metadata_only=[False, True], save_initial=[True, False],
-                kinds=["positive", "complex", "mixed(reduced)"], consecutive=["single fit", "two fits", "two fits with clear_history between"])
+                kinds=["positive", "complex", "mixed(reduced)"], consecutive=["single fit", "two fits", "two fits with clear_history between", "a metric raises at its 2nd scheduled evaluation, caller continues",
+                                                                                    "fit again with the stop request still pending (after every injected stop)"])
 
 
 def plan(tier, seed):
@@ -50,7 +51,7 @@ def plan(tier, seed):
             for p2 in (1, 2, 3):
                 for e0 in (1, 2, 3):
                     for E in range(0, Emax + 1):
-                        for mode in ("single", "two", "two-clear"):
+                        for mode in ("single", "two", "two-clear", "raise"):
                             if kind == "mixed" and (mode != "single" or E > 3 or p1 == 4):
                                 continue
                             if tier == "quick" and mode != "single" and (E > 3 or e0 == 3):
@@ -72,6 +73,17 @@ def csv_epochs(rows):
         except (TypeError, ValueError, KeyError):
             out.append(repr(r.get("epoch")))
     return out
+
+
+def sf(x):
+    try:
+        return float(x)
+    except (TypeError, ValueError):
+        return float("nan")
+
+
+class Boom(Exception):
+    """raised by the scripted failing metric"""
 
 
 def onepass(xs):
@@ -119,7 +131,16 @@ def run_history(cfg, tape):
             return r
 
         st.sample = wrapped
-        me = CB.MetricEvaluator(cfg["p1"], {"a": m1, "b": lambda s, **kw_: 2.0}, log=os.path.join(d, "m.csv"), off=3)
+        def mb(s, **kw_):
+            # mode "raise": the second metric fails at its second scheduled evaluation of the first run; the caller
+            # catches the error and goes on training with the same callbacks
+            if cfg["mode"] == "raise" and state["fit"] == 0:
+                state["bcalls"] = state.get("bcalls", 0) + 1
+                if state["bcalls"] == 2:
+                    raise Boom()
+            return 2.0
+
+        me = CB.MetricEvaluator(cfg["p1"], {"a": m1, "b": mb}, log=os.path.join(d, "m.csv"), off=3)
         oe = CB.ObservableEvaluator(cfg["p2"], [O.SigmaZ(), O.NeighbourInteraction(c=1)], log=os.path.join(d, "o.csv"), num_samples=4, num_chains=2, burn_in=1, steps=1)
         msgs = []
         verbose = bool((cfg["p1"] + cfg["e0"]) % 2)
@@ -154,11 +175,17 @@ def run_history(cfg, tape):
                 s.stop_training = True
                 state["injected"] = True
 
-        R = CB.LambdaCallback(on_train_start=on_train_start, on_epoch_end=on_epoch_end, on_batch_end=on_batch_end)
+        def on_epoch_start(s, e):
+            state["cur"] = e
+
+        R = CB.LambdaCallback(on_train_start=on_train_start, on_epoch_start=on_epoch_start, on_epoch_end=on_epoch_end, on_batch_end=on_batch_end)
         cbs = [me, oe, lg, ms, R]
         try:
             with contextlib.redirect_stdout(io.StringIO()):
-                call(st.fit, data, epochs=cfg["E"], starting_epoch=cfg["e0"], pos_batch_size=2, lr=0.1, callbacks=cbs, **kw)
+                try:
+                    call(st.fit, data, epochs=cfg["E"], starting_epoch=cfg["e0"], pos_batch_size=2, lr=0.1, callbacks=cbs, **kw)
+                except Boom:
+                    state["boom_at"] = state["cur"]
                 first_len = (len(me), len(oe))
                 if len(me):
                     _ = (me.a, me["b"], list(me.epochs), me.last)  # a user inspecting the records between two runs
@@ -190,7 +217,7 @@ def run_history(cfg, tape):
                         if len(me) or len(oe) or me.last != {} or oe.last != {}:
                             out.append(("periodic:clear_history-leaves-records", dict(me=len(me), oe=len(oe), last=str(me.last))))
                     state["fit"] = 1
-                    e1 = max(cfg["E"], cfg["e0"] - 1) + 1
+                    e1 = (state["boom_at"] if state.get("boom_at") else max(cfg["E"], cfg["e0"] - 1)) + 1
                     # after clear_history the second run has as many epochs as the first actually ran
                     # (same number of records again); otherwise two more epochs
                     n2 = max(len([r for r in rec if r["fit"] == 0]), 1) if cfg["mode"] == "two-clear" else 2
@@ -202,6 +229,8 @@ def run_history(cfg, tape):
         for fi, (lo, hi) in enumerate([(cfg["e0"], cfg["E"])] + ([(e1, e1 + n2 - 1)] if cfg["mode"] != "single" else [])):
             got = [r["epoch"] for r in rec if r["fit"] == fi]
             want = list(range(lo, hi + 1))
+            if fi == 0 and state.get("boom_at"):
+                want = list(range(lo, state["boom_at"]))  # the failing epoch never reached its end
             if got != (want[:len(got)] if fi == 0 and state["injected"] else want):
                 out.append(("periodic:run-epochs-differ-from-starting_epoch..epochs", dict(fit=fi, got=got, want=want)))
         keep = [r for r in rec if not (cfg["mode"] == "two-clear" and r["fit"] == 0)]
@@ -226,7 +255,7 @@ def run_history(cfg, tape):
                 out.append(("periodic:MetricEvaluator:records-differ-from-values-computed-at-those-epochs", dict(a=list(map(float, me.a)) if len(sm) else [], want=[r["a"] for r in sm], last=str(me.last))))
             rows_csv = list(csv.DictReader(open(os.path.join(d, "m.csv"))))
             sm_all = sched(cfg["p1"], rec)
-            if csv_epochs(rows_csv) != [r["epoch"] for r in sm_all] or any(not feq(float(x["a"]), r["a"]) or float(x["b"]) != 2.0 for x, r in zip(rows_csv, sm_all)):
+            if csv_epochs(rows_csv) != [r["epoch"] for r in sm_all] or any(not feq(sf(x.get("a")), r["a"]) or sf(x.get("b")) != 2.0 for x, r in zip(rows_csv, sm_all)):
                 out.append(("periodic:MetricEvaluator:csv-log-differs", dict(rows=[r["epoch"] for r in rows_csv], want=[r["epoch"] for r in sm_all])))
         # ---- observable evaluator: statistics recomputed from captured chain states
         so = sched(cfg["p2"], keep)
@@ -260,8 +289,18 @@ def run_history(cfg, tape):
                 rows_csv = list(csv.DictReader(open(os.path.join(d, "o.csv"))))
                 if csv_epochs(rows_csv) != [r["epoch"] for r in so_all]:
                     out.append(("periodic:ObservableEvaluator:csv-log-differs", dict(rows=[r["epoch"] for r in rows_csv], want=[r["epoch"] for r in so_all])))
-                elif len(so) and not feq(float(rows_csv[-1]["SigmaZ_mean"]), oe.get_value("SigmaZ")["mean"]):
-                    out.append(("periodic:ObservableEvaluator:csv-log-differs", dict(last_row=rows_csv[-1])))
+                else:
+                    # every cell of every row written in the (last) run, for EVERY observable
+                    for i in range(len(so)):
+                        row = rows_csv[len(rows_csv) - len(so) + i]
+                        for name in ("SigmaZ", O.NeighbourInteraction(c=1).name):
+                            g = oe.get_value(name, i)
+                            if not all(feq(sf(row.get(f"{name}_{k_}")), g[k_]) for k_ in ("mean", "variance", "std_error")):
+                                out.append(("periodic:ObservableEvaluator:csv-log-differs", dict(row=dict(row), observable=name)))
+                                break
+                        else:
+                            continue
+                        break
         # ---- logger
         if default_msg:
             want_msgs = ["Epoch " + str(r["epoch"]) + ": " + str({"tagv": 7}) for r in sched(cfg["pl"], rec)]
